@@ -158,7 +158,7 @@ def verify_loop_body_bv(ex, c, info, fn, ordinal):
     ex.check(f"loop{ordinal}.body_lemma", eval_clause(ex, spec["body_ensures"], post))
 
 
-def concrete_for(ex, node, items, fr, spec, ordinal):
+def concrete_for(ex, node, items, fr, spec, ordinal, sized=None):
     """loop over a concrete sequence under the invariant rule: the state of an arbitrary iteration is rebuilt from the
     invariant by the contract's `state` constructor, so the number of paths is linear in the sequence length even
     when every iteration forks"""
@@ -175,19 +175,32 @@ def concrete_for(ex, node, items, fr, spec, ordinal):
             raise PathEnd()
         if k >= n:
             raise Unsupported("re-execution diverged: the iterated sequence changed between paths (shared state?)")
-        fr.env.vars.update(make_state(ex, _inv_env(fr, {}), k))
+        try:
+            st = make_state(ex, _inv_env(fr, {}), k)
+        except (AttributeError, TypeError, KeyError, IndexError) as e:
+            raise Unsupported(f"the loop contract (state constructor) does not fit the loop any more: {e!r}")
+        fr.env.vars.update(st)
         ex.check(f"loop{ordinal}.state_satisfies_inv", eval_clause(ex, inv, _inv_env(fr, {"_i": k, "_n": n})))
         ex.assign(node.target, items[k], fr)
+        n0 = len(sized) if sized is not None else None
         try:
             ex.exec_block(node.body, fr)
         except ContinueSig:
             pass
         except BreakSig:
             raise Unsupported("break inside a loop under the invariant rule")
+        if sized is not None and len(sized) != n0:
+            # the dict (view) being iterated changed size in the body: python raises at the next step of the loop
+            from .interp import PyRaise
+            raise PyRaise(RuntimeError("dictionary changed size during iteration"))
         ex.check(f"loop{ordinal}.inv_preserved", eval_clause(ex, inv, _inv_env(fr, {"_i": k + 1, "_n": n})))
         for cb in ex.path_end_hooks:       # ghost-state obligations of the scenario also hold after any iteration
             cb()
         raise PathEnd()
-    fr.env.vars.update(make_state(ex, _inv_env(fr, {}), n))
+    try:
+        st = make_state(ex, _inv_env(fr, {}), n)
+    except (AttributeError, TypeError, KeyError, IndexError) as e:
+        raise Unsupported(f"the loop contract (state constructor) does not fit the loop any more: {e!r}")
+    fr.env.vars.update(st)
     ex.check(f"loop{ordinal}.state_satisfies_inv", eval_clause(ex, inv, _inv_env(fr, {"_i": n, "_n": n})))
     ex.exec_block(node.orelse, fr)
